@@ -74,6 +74,9 @@ extern "C" {
     fn Tok_res_pod(ok: bool) -> DiplomatResult<Pod, ()>;
     fn Tok_describe(this: &Tok, w: &mut DiplomatWrite);
     fn Tok_describe_n(this: &Tok, n: u32, w: &mut DiplomatWrite);
+    fn Tok_describe_named<'a>(this: &'a Tok, w: &'a mut DiplomatWrite);
+    fn Tok_opt_describe(this: &Tok, some: bool, w: &mut DiplomatWrite) -> DiplomatResult<(), ()>;
+    fn Tok_try_describe_named<'a>(this: &Tok, ok: bool, w: &'a mut DiplomatWrite) -> DiplomatResult<(), ErrPod>;
     fn Tok_try_describe(this: &Tok, ok: bool, w: &mut DiplomatWrite) -> DiplomatResult<(), Box<ErrTok>>;
     fn Tok_destroy(this: Box<Tok>);
     fn ErrTok_id(this: &ErrTok) -> u32;
@@ -247,6 +250,8 @@ pub enum Op {
     ResUnit { ok: bool },
     ResPod { ok: bool },
     Describe { h: usize, cap: usize },
+    /// v: 0 = describe_named (named lifetime on the writer), 1 = opt_describe, 2 = try_describe_named
+    DescribeVariant { h: usize, v: u8, arm: bool, cap: usize },
     DescribeN { h: usize, n: u32, cap: usize, fail_at: Option<u32> },
     TryDescribe { h: usize, d: usize, ok: bool, cap: usize },
     Destroy { h: usize },
@@ -300,6 +305,7 @@ pub fn op_text(op: &Op) -> String {
         ResUnit { ok } => format!("res_unit {}", b(*ok, "ok", "err")),
         ResPod { ok } => format!("res_pod {}", b(*ok, "ok", "err")),
         Describe { h, cap } => format!("describe {} {}", h, cap),
+        DescribeVariant { h, v, arm, cap } => format!("describe_variant {} {} {} {}", h, v, b(*arm, "ok", "err"), cap),
         DescribeN { h, n, cap, fail_at } => match fail_at {
             Some(k) => format!("describe_n {} {} {} fail_at {}", h, n, cap, k),
             None => format!("describe_n {} {} {}", h, n, cap),
@@ -352,6 +358,7 @@ fn parse_op(t: &[&str]) -> Result<Op, String> {
         "res_unit" => ResUnit { ok: flag(1, "ok") },
         "res_pod" => ResPod { ok: flag(1, "ok") },
         "describe" => Describe { h: hs(1)?, cap: num(2)? },
+        "describe_variant" => DescribeVariant { h: hs(1)?, v: num(2)? as u8, arm: flag(3, "ok"), cap: num(4)? },
         "describe_n" => DescribeN { h: hs(1)?, n: num(2)? as u32, cap: num(3)?, fail_at: if flag(4, "fail_at") { Some(num(5)? as u32) } else { None } },
         "try_describe" => TryDescribe { h: hs(1)?, d: hs(2)?, ok: flag(3, "ok"), cap: num(4)? },
         "destroy" => Destroy { h: hs(1)? },
@@ -950,6 +957,35 @@ impl<'t> Exec<'t> {
                 }
                 self.check_write("describe", &content, format!("tok#{}", id).as_bytes(), flushes, failed, false, len_at_flush)?;
             }
+            DescribeVariant { h, v, arm, cap } => {
+                let t = match self.tok_ref(*h) {
+                    Some(t) => t,
+                    None => return Ok(false),
+                };
+                let id = self.tok(*h).unwrap().id;
+                let w = Writer::new(*cap, None);
+                let (want, arm_ok) = unsafe {
+                    match v {
+                        0 => {
+                            Tok_describe_named(t, w.as_write());
+                            (format!("named#{}", id), true)
+                        }
+                        1 => {
+                            let r: Option<()> = Tok_opt_describe(t, *arm, w.as_write()).into_option();
+                            (format!("opt#{}", id), r.is_some() == *arm)
+                        }
+                        _ => {
+                            let r: Result<(), ErrPod> = Tok_try_describe_named(t, *arm, w.as_write()).into();
+                            (format!("trynamed#{}", id), r.is_ok() == *arm)
+                        }
+                    }
+                };
+                let (content, flushes, failed, len_at_flush, _grows) = w.finish();
+                if !arm_ok {
+                    return Err(self.v("O5-value-integrity", "write-out method returned the wrong arm".into()));
+                }
+                self.check_write("describe_variant", &content, want.as_bytes(), flushes, failed, false, len_at_flush)?;
+            }
             DescribeN { h, n, cap, fail_at } => {
                 let t = match self.tok_ref(*h) {
                     Some(t) => t,
@@ -1094,6 +1130,7 @@ fn op_kind(op: &Op) -> u32 {
         ResUnit { .. } => 48,
         ResPod { .. } => 49,
         Describe { .. } => 50,
+        DescribeVariant { v, arm, .. } => 63 + *v as u32 * 2 + *arm as u32,
         DescribeN { fail_at, .. } => 51 + fail_at.is_some() as u32,
         TryDescribe { ok, .. } => 53 + *ok as u32,
         Destroy { .. } => 55,
@@ -1354,7 +1391,8 @@ pub fn gen_trace(seed: u64, run: u64, c12: bool) -> Trace {
             },
             _ => {
                 let cap = *rng.pick(&[1usize, 1, 2, 4, 5, 6, 16, 64]);
-                match rng.below(3) {
+                match rng.below(5) {
+                    3 | 4 => Op::DescribeVariant { h, v: rng.below(3) as u8, arm: ok, cap },
                     0 => Op::Describe { h, cap },
                     1 => Op::DescribeN { h, n: rng.below(12), cap, fail_at: if rng.chance(1, 3) { Some(rng.below(3)) } else { None } },
                     _ => {
